@@ -324,6 +324,34 @@ func memGen(c *Ctx) {
 			}
 		}
 	}
+	if c.Want("cross") {
+		// cross reads: after a write somewhere, what do the *other* registers and the cells on both sides of every
+		// region boundary read? (an address decoded into a neighbouring region, a register write that also moves another
+		// register, are invisible to write-then-read-back of the same address)
+		rng := c.Rand(607)
+		count := 40
+		if c.Thorough() {
+			count = 600
+		}
+		pool := []int{0xff0f, 0xff41, 0xff45, 0xff42, 0xff43, 0xff47, 0xff48, 0xff49, 0xff4a, 0xff4b, 0xffff, 0xff06, 0xff07, 0xff00, 0xff02,
+			0xfe00, 0xfe01, 0xfe9f, 0xde00, 0xddff, 0xfdff, 0xe000, 0xc000, 0xdfff, 0xff80, 0xfffe, 0x8000, 0x9fff, 0xa000, 0xbfff, 0xfea0, 0xfeff}
+		for i := 0; i < count; i++ {
+			mode := []string{"lcdoff", "lcdoff2", "random"}[i%3]
+			var ops []memOp
+			for _, a := range pool {
+				ops = append(ops, memOp{"r", a, 0})
+			}
+			for j := 0; j < 90; j++ {
+				a := pool[rng.Intn(len(pool))]
+				v := []int{0x00, 0x40, 0xff, 0x44, rng.Intn(256), rng.Intn(256)}[rng.Intn(6)]
+				ops = append(ops, memOp{"w", a, v})
+				for k := 0; k < 4; k++ {
+					ops = append(ops, memOp{"r", pool[rng.Intn(len(pool))], 0})
+				}
+			}
+			add("cross", mode, int64(rng.Intn(1<<30)), ops)
+		}
+	}
 	if c.Want("bulk") {
 		// strided sweep of the bulk regions (every address in thorough), a few values each
 		rng := c.Rand(602)
